@@ -1624,3 +1624,8 @@ mut("helper_closure_registers_another_table_number", ["C11", "C03"], "ORD-13|db:
     note="the helper closure of set E #06 is called with file_number + 1: the table being built is not the registered one (decided through the inlined closure)")
 mut("helper_closure_stalls_below_the_due_threshold", ["C09"], "TRIG-1|db::DB::make_room_for_write|a-stalled-writer-has-a-due-compaction", patch="helper_closure_stalls_below_the_due_threshold.diff",
     note="the helper closure of set E #03 is called with 2: writers are delayed at a level-0 count at which no compaction is due (decided through the inlined closure)")
+
+# ---- an iterator-adapter closure that fills the collector's live set, and its wrong twin
+benign_patch("refactor_s12_G_01", "benign/set12_G1_gc_live_set_for_each.diff", note="DB::remove_obsolete_files: the insert loop over get_live_files() written as `.into_iter().for_each(|f| { live.insert(f); })`")
+mut("gc_live_set_for_each_filtered", ["C11", "C03"], "GRD-5|db::DB::remove_obsolete_files|live-set", patch="gc_live_set_for_each_filtered.diff",
+    note="the for_each form with a `.filter(|f| tables_in_use.contains(f))` in front: only tables that are ALSO being built count as live - tables of the current version are deleted")
